@@ -193,7 +193,7 @@ def main(tier, replay=None):
         return 0
     q = tier == "quick"
     work = common.tmpdir("c15-")
-    runs = [("paste", 2 if q else 3, "0..1"), ("reverse", 3 if q else 4, "0..1"), ("iadd", 2, "0..1"),
+    runs = [("paste", 3 if q else 4, "0..1"), ("reverse", 3 if q else 4, "0..1"), ("iadd", 2, "0..1"),
             ("classify", 3 if q else 4, "(-2)..1" if q else "(-2)..2")]
     try:
         for fam, maxlen, ops in runs:
